@@ -913,7 +913,7 @@ def check_C15(tier, seed):
         if '"quant": "the"' in json.dumps(p["cond"]):
             allobjs = list(range(1, len(W["objs"]) + 1))
             rng.shuffle(allobjs)
-            return [doms[0], allobjs]
+            return [doms[0], allobjs] + doms[2:]
         return doms
     return _grammar_check(
         "C15", tier, seed, ["G6"],
@@ -921,7 +921,7 @@ def check_C15(tier, seed):
         "and combined with and_/or_/not_ with each other and with plain conditions; sub-queries used as comparison "
         "operands (an(entity(y, c)).n == x.m, an(entity(y, c)) == x.ref, contains(x.refs, an(...))); TLC gives each the "
         "meaning of its conditions inlined; correlated sub-queries (inner condition on a variable of the enclosing query) "
-        "with an and with the (unique solution per outer binding); non-trivial = result neither empty nor everything", 2,
+        "with an and with the (unique solution per outer binding); non-trivial = result neither empty nor everything", 3,
         events=events, needs=lambda p: count_nodes(p["cond"], "subq") + count_nodes(p["cond"], "sub") > 0 and the_ok(p),
         fix_doms=the_doms)
 
